@@ -14,6 +14,10 @@ ROOT = os.path.dirname(os.path.dirname(os.path.abspath(__file__)))
 REPO = os.environ.get("VERIF_REPO", "/repo")
 WORK = os.path.join(ROOT, ".work")
 COQ = os.path.join(ROOT, "coq")
+if os.path.realpath(REPO) != "/repo":
+    # a check run against a scratch copy of the repository (seeded changes) gets its own copy of the
+    # Coq development, so that its regenerated Gen/*.v never disturbs runs against /repo itself
+    COQ = os.path.join(WORK, "coq_alt")
 EVID = os.path.join(ROOT, "evidence")
 REPLAY = os.path.join(EVID, "replay")
 OVERLAY_SRC = os.path.join(ROOT, "harness", "overlay")
@@ -158,10 +162,23 @@ GEN_HEADERS = {
 }
 
 
+def sync_alt_coq():
+    """when running against a scratch repository: mirror /verif/coq sources into the private copy
+    (rsync keeps mtimes, so unchanged files are not rebuilt)"""
+    src = os.path.join(ROOT, "coq")
+    if COQ == src:
+        return
+    os.makedirs(COQ, exist_ok=True)
+    subprocess.run(["rsync", "-a", "--exclude", "*.vo", "--exclude", "*.vok", "--exclude", "*.vos", "--exclude", "*.glob",
+                    "--exclude", ".*.aux", "--exclude", "Gen/", "--exclude", "Makefile*", "--exclude", ".Makefile.d",
+                    "--exclude", ".lia.cache", src + "/", COQ + "/"], check=True)
+
+
 def regenerate():
     """Tie 1: rewrite coq/theories/Gen/Generated*.v from /repo's current tree by executing the
     dumpers (TestVerifGen*). A dumper's output goes to Generated.v; text after a line
     `(*@@ Name *)` goes to Gen/Name.v. Returns (ok, detail). Files are only touched when they change."""
+    sync_alt_coq()
     files = {"Generated": []}
     for pkg in gen_packages():
         out = out_path("gen")
